@@ -388,14 +388,58 @@ func contains(xs []string, x string) bool {
 	return false
 }
 
+// detectAll runs node/feature_detect.js over the items (in chunks, 8 node processes side by side)
+func detectAll(r *core.Run, items []detItem) []detResult {
+	dets := make([]detResult, len(items))
+	const chunk = 1500
+	nChunks := (len(items) + chunk - 1) / chunk
+	var dmu sync.Mutex
+	core.Parallel(nChunks, 8, func(ci int) {
+		lo, hi := ci*chunk, (ci+1)*chunk
+		if hi > len(items) {
+			hi = len(items)
+		}
+		var out struct {
+			Results []detResult `json:"results"`
+		}
+		if err := nodex.Run(r, "feature_detect.js", map[string]interface{}{"items": items[lo:hi]}, &out, 15*time.Minute, "", "--expose-internals"); err != nil {
+			r.Infra("feature detector failed on items %d..%d: %v", lo, hi, err)
+			return
+		}
+		dmu.Lock()
+		for _, d := range out.Results {
+			if n, err := strconv.Atoi(d.ID); err == nil && n >= 0 && n < len(dets) {
+				dets[n] = d
+			}
+		}
+		dmu.Unlock()
+	})
+	return dets
+}
+
 func Run(r *core.Run) {
 	r.Assume("reference grammar = acorn 8.16 (embedded in Node 20) at ecmaVersion = target year; acorn cannot parse decorators/auto-accessors/import defer: those outputs are counted as reference_cannot_parse and not judged")
 	r.Assume("engine targets are judged against a hand-transcribed upper bound of what the engine version parses (spec EngineSyntax), not against esbuild's own table")
-	tlcrun.MustHold(r, tlcrun.Options{Module: "Lowering", Config: "Lowering.design.cfg", Workers: 4, TimeoutSec: 900, HeapGB: 4})
+	r.Assume("histories: one build per step through a fresh api.Transform/api.Build/api.Context; the process-global caches are those read off the code (bundler.globalRuntimeCache, config.processedGlobals); a later build's output that differs from the fresh-process output but stays within the target's syntax is drift, not a C14 verdict")
+	// the TLC runs that nothing below waits for go on beside the matrix (8 TLC workers in all)
+	var bg sync.WaitGroup
+	bg.Add(2)
+	defer bg.Wait()
+	go func() {
+		defer bg.Done()
+		tlcrun.MustHold(r, tlcrun.Options{Module: "Lowering", Config: "Lowering.design.cfg", Workers: 2, TimeoutSec: 1500, HeapGB: 4})
+	}()
+	var hm *histModel
+	hmDone := make(chan struct{})
+	go func() {
+		defer bg.Done()
+		defer close(hmDone)
+		hm = histTLC(r)
+	}()
 	var h *header
 	var cells []*cell
 	var allows []*allow
-	res := tlcrun.MustHold(r, tlcrun.Options{Module: "Lowering", Config: "Lowering.matrix.cfg", Workers: 2, TimeoutSec: 900, HeapGB: 4, OnCase: func(raw []byte) {
+	res := tlcrun.MustHold(r, tlcrun.Options{Module: "Lowering", Config: "Lowering.matrix.cfg", Workers: 2, TimeoutSec: 1500, HeapGB: 4, OnCase: func(raw []byte) {
 		var k struct {
 			Kind string `json:"kind"`
 		}
@@ -534,6 +578,10 @@ func Run(r *core.Run) {
 			}
 		}
 	}
+	if os.Getenv("C14_HIST_ONLY") != "" { // developer switch: only the history dimension (never in the registered commands)
+		jobs = nil
+		r.Assume("DEVELOPER RUN: C14_HIST_ONLY set, the matrix was not replayed")
+	}
 	r.Set("matrix_cells", len(jobs))
 	r.Set("contradictory_configurations_skipped", inconsistent)
 	r.Logf("%d cells, %d allowed sets, %d matrix cells to build", len(cells), len(allows), len(jobs))
@@ -582,30 +630,7 @@ func Run(r *core.Run) {
 	}
 	r.Set("builds_rejected_with_error", rejected)
 	r.Set("distinct_outputs_parsed", len(items))
-	dets := make([]detResult, len(items))
-	const chunk = 1500
-	nChunks := (len(items) + chunk - 1) / chunk
-	var dmu sync.Mutex
-	core.Parallel(nChunks, 8, func(ci int) {
-		lo, hi := ci*chunk, (ci+1)*chunk
-		if hi > len(items) {
-			hi = len(items)
-		}
-		var out struct {
-			Results []detResult `json:"results"`
-		}
-		if err := nodex.Run(r, "feature_detect.js", map[string]interface{}{"items": items[lo:hi]}, &out, 15*time.Minute, "", "--expose-internals"); err != nil {
-			r.Infra("feature detector failed on items %d..%d: %v", lo, hi, err)
-			return
-		}
-		dmu.Lock()
-		for _, d := range out.Results {
-			if n, err := strconv.Atoi(d.ID); err == nil && n >= 0 && n < len(dets) {
-				dets[n] = d
-			}
-		}
-		dmu.Unlock()
-	})
+	dets := detectAll(r, items)
 	r.Logf("parsed %d distinct outputs", len(items))
 
 	// what the same cell and stage contains when nothing has to be lowered (target esnext, no
@@ -695,11 +720,14 @@ func Run(r *core.Run) {
 				"parsed_at_year": d.Parsed, "year": j.a.Year, "output_bytes": len(o.code)})
 		}
 	}
+	// the history dimension (spec/LoweringHist.tla)
+	<-hmDone
+	histReplay(r, hm, h, func(target, override string) *allow { return allowOf[tk{target, override}] }, func(items []detItem) []detResult { return detectAll(r, items) })
 	r.Set("reference_cannot_parse", cannotParse)
 	r.Set("forced_on_checked", passedThrough)
 	r.Set("pass_through_with_warning", warnedPass)
 	r.Set("nontrivial_by_feature", perFeature)
-	r.Set("rule", "case = one matrix cell: (feature, position) cell of spec/Lowering.tla x target year or engine list x supported override (none / each used feature on / off) x stage (transform|bundle x format x minify); quick samples targets (es2015, the feature's year and the year before, esnext, one random year, one engine list) and 3 stages per cell, thorough takes all; non-trivial = the input uses a feature that is not in AllowedSyntax(target, override) (minifier-bait cells: the feature the minifier is tempted to introduce is not allowed)")
+	r.Set("rule", "case = one matrix cell: (feature, position) cell of spec/Lowering.tla x target year or engine list x supported override (none / each used feature on / off) x stage (transform|bundle x format x minify); quick samples targets (es2015, the feature's year and the year before, esnext, one random year, one engine list) and 3 stages per cell, thorough takes all; non-trivial = the input uses a feature that is not in AllowedSyntax(target, override) (minifier-bait cells: the feature the minifier is tempted to introduce is not allowed); plus one case per (history of spec/LoweringHist.tla, step, helper program): non-trivial = the step is not the first of its process, an earlier step has another target/override/minify mode and the step's configuration needs the program's helpers")
 }
 
 func init() { core.Register("C14", Run) }
